@@ -11,6 +11,7 @@ import (
 	"os"
 	"path/filepath"
 	"runtime"
+	"runtime/debug"
 	"sort"
 	"strconv"
 	"strings"
@@ -216,6 +217,30 @@ func (r *Run) Guard(what string, replay any, f func()) (panicked bool) {
 	}()
 	f()
 	return false
+}
+
+// Protect is deferred at the top of every worker goroutine of a check: a panic that escapes the
+// per-call guards would otherwise end the whole process without a verdict. A panic whose stack passes
+// through onflow/crypto is a violation (the call did not return); one that does not is a harness
+// defect and makes the run inconclusive.
+func (r *Run) Protect(what string) {
+	if e := recover(); e != nil {
+		site := PanicSite()
+		stack := string(debug.Stack())
+		if strings.Contains(stack, "github.com/onflow/crypto") {
+			r.Violate(fmt.Sprintf("%s:panic:%s:%s", r.ID, what, site), fmt.Sprintf("panic in %s: %v at %s", what, e, site), map[string]any{"stack": firstLines(stack, 40)})
+		} else {
+			r.Inconclusive(fmt.Sprintf("harness panic in %s: %v at %s", what, e, site))
+		}
+	}
+}
+
+func firstLines(s string, n int) string {
+	lines := strings.SplitN(s, "\n", n+1)
+	if len(lines) > n {
+		lines = lines[:n]
+	}
+	return strings.Join(lines, "\n")
 }
 
 // PanicSite returns the innermost frame inside onflow/crypto (or the first non-runtime frame).
